@@ -37,6 +37,15 @@ thread_local! {
     static KEEP_GOING: std::cell::Cell<bool> = const { std::cell::Cell::new(false) };
 }
 
+/// Records that thread `tid` ended by a panic outside its operations (destructor of its buffered handle).
+pub fn record_thread_panic(tid: usize, op_idx: usize, p: &Box<dyn std::any::Any + Send>) {
+    let msg = match p.downcast_ref::<&str>() {
+        Some(s) if *s == INJECTED => INJECTED.to_string(),
+        _ => panic_msg(p),
+    };
+    rec(tid, op_idx, Tag::LowLevel, UNTIMED, UNTIMED, Res::Panicked(msg));
+}
+
 pub fn set_keep_going(on: bool) {
     KEEP_GOING.with(|k| k.set(on));
 }
